@@ -35,7 +35,9 @@ ASBUILT = {
   columns; any other number on an inactive row is `inactive_reports_<table>`), load/feeder clause, deletion equivalence against
   `reach.prune(spec)` (rtol 1e-7; observed 5e-12), "nothing supplied => PipeflowNotConverged", and a crash class
   (`pipeflow_crashes_on_outage_pattern`); a pattern that ends in PipeflowNotConverged although its pruned (supplied-only)
-  network converges is `supplied_part_not_calculated` (added after seeded change S04). Loads at an out-of-service junction that in-service branches re-activate are not
+  network converges is `supplied_part_not_calculated` (added after seeded change S04). The heating-loop topology also holds a
+  line fed by a pressure-only grid; in thermal modes the results of the thermally supplied part must equal those of the network
+  without the part that has no temperature source (`thermally_supplied_part_depends_on_the_rest`, added after R3_C10). Loads at an out-of-service junction that in-service branches re-activate are not
   judged (inconsistent input, statement silent). The junction clause is judged on `p_bar` as stated ("receives a pressure
   result"); `t_k` of a junction outside the calculation is the start value (hydraulics) or the ambient temperature (thermal
   modes) by a convention the repository's own tests assert, and is not judged. **Found and fixed:** inactive heat consumers / circulation pumps / pressure
@@ -96,7 +98,10 @@ ASBUILT = {
   heat-only run are taken over from the preceding hydraulics run). Cooling residual observed 1e-13 K; mixing residual 2e-5
   relative on default-tolerance runs, 1e-12 on tight ones. The pipe-level `t_outlet_k` must equal the outlet of the section
   the fluid leaves through. A third of the passive two-feeder cases is refused by the thermal stage (a pt grid receiving
-  flow) and counted as not comparable. **Found and fixed:** mixing weight `cp(cp)`.""",
+  flow) and counted as not comparable. 30 % of the loops carry a separate line fed by a pressure-only grid (calculated
+  hydraulically, no part of the thermal calculation; the monitors derive the thermal region themselves - reachable from a
+  temperature-fixing feeder over flowing branches - and judge only streams inside it; added after seeded change R3_C10).
+  **Found and fixed:** mixing weight `cp(cp)`.""",
 "C11": """* **As built (`props/c11.py`, `monitors.mon_c11`):** loops with 1-8 consumers in all five modes, flow-controlled heat
   exchangers with positive and negative heat, 40 % of them entered against the flow direction (negative reported flow; added
   after seeded change S11), three source kinds, sequential and bidirectional. Q = m cp_mean dT holds to
